@@ -221,7 +221,10 @@ def run_unit(unit, tier):
                     res.obligations[oid] = {"props": o["props"], "fn": o["fn"], "line": 0, "text": o.get("text", "")}
                 # a method that is gone from a trait declaration is gone from (or changed in) its implementations too
                 meth = fid.split(".")[-1]
-                fns = {o["fn"] for o in bp.values() if o.get("fn") and (o["fn"] == fid or o["fn"].split(".")[-1] == meth)} | {fid}
+                if meth == "*":      # every function of the impl block (impl-methods check)
+                    fns = {o["fn"] for o in bp.values() if o.get("fn") and o["fn"].startswith(fid[:-1])}
+                else:
+                    fns = {o["fn"] for o in bp.values() if o.get("fn") and (o["fn"] == fid or o["fn"].split(".")[-1] == meth)} | {fid}
                 res.rejected = [(f, "extraction failed: " + str(e)) for f in sorted(fns)]
         return res
     res.map = m
